@@ -72,4 +72,14 @@ theorem select_secret_eq_model (kl : List Key) (cr : Bytes) (v : Option Session.
 theorem block_size_eq_model (a : Cipher.Alg) : (TK.block_size a).block_size = Pipeline.blockBits a := by
   cases a <;> rfl
 
+/-- the end of `generate_keys`: `Decryptor(CryptoAlgo[0], Mode[0], MAC, keys, self.tls_version, KeyLength, MAC.digest_size, TagLength,
+    block_size, self.extensions, self.compression_method)` — the constructor (external `mk`; its parameters in the order of
+    `Decryptor.__init__`, group Decrypt2) gets the model's `blockBits` of the bulk algorithm as block length, the session's version,
+    key length before MAC length before tag length (`Pipeline.genKeys`: `Dec.init P a.bulk (rlVersion v) macLen a.tagLen (blockBits a.bulk) …`) -/
+theorem install_eq_model {μ η κ ε δ : Type}
+    (mk : Cipher.Alg → μ → η → κ → Option Session.Ver → Nat → Nat → Option Nat → Nat → ε → Nat → δ)
+    (a : Cipher.Alg) (m : μ) (mac : η) (keys : κ) (kl ds : Nat) (tl : Option Nat) (v : Option Session.Ver) (ex : ε) (comp : Nat) :
+    (TK.install mk a m mac keys kl ds tl v ex comp).decryptor = mk a m mac keys v kl ds tl (Pipeline.blockBits a) ex comp := by
+  cases a <;> rfl
+
 end TLX.Props.Translated.TlsKeys
